@@ -149,8 +149,8 @@ class MATCHConv2d(nn.Conv2d, MATCHModule):
 
         if not self.skip_requant:  # This should happen on the last layer
             # Convolution
-            out = F.conv2d(input, self.weight, None, self.stride,
-                           self.padding, self.dilation, self.groups)
+            # (`_conv_forward` honours `padding_mode` as the fake-quantized layer does)
+            out = self._conv_forward(input, self.weight, None)
             # Multiply scale factor, sum bias, shift
             out = (out * self.scale + self.add_bias) / (2 ** self.shift)
             # Compute floor
@@ -159,8 +159,7 @@ class MATCHConv2d(nn.Conv2d, MATCHModule):
             out = torch.clip(out, self.clip_inf, self.clip_sup)
         else:
             # Convolution
-            out = F.conv2d(input, self.weight, self.bias, self.stride,
-                           self.padding, self.dilation, self.groups)
+            out = self._conv_forward(input, self.weight, self.bias)
 
         return out
 
